@@ -1,3 +1,3 @@
 From Coq Require Import ExtrOcamlBasic.
-From HV Require Import Base.BSet Gen.Tables Text.TypeOrder Topo.Dump Topo.WFCheck Topo.Obj Topo.Sets Topo.Remove Topo.Insert Topo.Restrict Topo.InsertTie Topo.MemAttach Topo.SynthBuild Topo.SynthBuildProofs Topo.LinuxCpu Topo.DiscInsertProofs.
-Extraction "c01_model.ml" wf_check levels_agree model_levels dump_levels sets_pipeline_diff total_memory_diff removal_agrees insert_tie merge_agrees find_parent_tie attach_tie synth_requests_diff synth_hyp_of_desc linux_cpu_agrees disc_step_inside disc_ord_after.
+From HV Require Import Base.BSet Gen.Tables Text.TypeOrder Topo.Dump Topo.WFCheck Topo.Obj Topo.Sets Topo.Remove Topo.Insert Topo.Restrict Topo.InsertTie Topo.MemAttach Topo.SynthBuild Topo.SynthBuildProofs Topo.LinuxCpu Topo.DiscInsertProofs Topo.DiscPresenceProofs.
+Extraction "c01_model.ml" wf_check levels_agree model_levels dump_levels sets_pipeline_diff total_memory_diff removal_agrees insert_tie merge_agrees find_parent_tie attach_tie synth_requests_diff synth_hyp_of_desc linux_cpu_agrees disc_step_inside disc_ord_after cover_hyp_of.
